@@ -187,6 +187,7 @@ def function_threads(ctx, viol, label, make, calls, after=(), limit=60, bound=2,
         return False
     progs = [[(lambda a: (lambda f: f(a)))(a)] for a in calls]
     prefix, n = [], 0
+    deep = sched.Deepening(bound, limit)
     while True:
         r = sched.run_schedule(make, progs, prefix=prefix)
         s_ = r["sched"]
@@ -208,8 +209,8 @@ def function_threads(ctx, viol, label, make, calls, after=(), limit=60, bound=2,
             viol("answer-depends-on-another-thread", f"{label}: alone -> {want} (then {want_after}); called by {len(calls)} threads at once -> {got}, afterwards -> {later}; errors {r['errors']}; schedule {key}",
                  {"function_threads": label, "schedule": key})
             return False
-        nxt = sched.next_prefix(s_.trace, bound)
-        if nxt is None or n >= limit:
+        nxt = deep.next(s_.trace)
+        if nxt is None:
             break
         prefix = nxt
     return True
